@@ -19,7 +19,7 @@ PROPERTY = "C08"
 
 META = {
     "bounds": {
-        "quick": "19 placement patterns (shadowing, named scopes inside loop iterations and inside a macro applied several times, definitions inside taken / untaken .if and else branches (not scopes), fallback, isolation, sibling reuse, forward references, depth-3 nesting, qualified exports before/after/inside blocks) x 4 scope kinds x 3 definition kinds (label, =, :=), rename twins and unrelated-definition twins; start address and every constant value symbolic",
+        "quick": "19 placement patterns (shadowing, named scopes inside loop iterations and inside a macro applied several times, definitions inside taken / untaken .if and else branches (not scopes), fallback, isolation, sibling reuse, forward references, depth-3 nesting, qualified exports before/after/inside blocks) x 4 scope kinds x 3 definition kinds (label, =, :=), rename twins and unrelated-definition twins; start address and every constant value (-2^23 .. 2^24-1) symbolic",
         "thorough": "same plus VERIF_SEED-drawn 600 random scope trees (depth <= 3, <= 5 scopes, names a,b)",
     },
     "outside": ["scope trees beyond the bound", "duplicate definitions of a name in one scope", "qualified names with more than one dot (not expressible in the source language)", "references with inferred-width instructions (C02)"],
@@ -292,7 +292,7 @@ def run(spec, cx):
         holes |= const_holes(t)
     syms = {"p": p}
     for h in sorted(holes):
-        syms[h] = cx.int(h, 0, 0xFFFFFF)
+        syms[h] = cx.int(h, -(1 << 23), 0xFFFFFF)     # negative constants too (`.dl` emits the low 24 bits)
     outs = []
     for t in trees:
         r = assemble(source(t), dict(syms), dump_symbols=bool(spec.get("dump")))
